@@ -870,6 +870,10 @@ class ExcelCompiler:
         cell = self.cell_map[address]
 
         # calculate the cell value for formulas and ranges
+        if isinstance(cell, _CellRange) and self.cycles:
+            # ranges are recomputed once per pass when iterating
+            return self._evaluate_range(cell.address.address)
+
         if cell.needs_calc:
             if isinstance(cell, _CellRange) or cell.address.is_unbounded_range:
                 self._evaluate_range(cell.address.address)
